@@ -6,6 +6,7 @@ CONSTANTS
   WithHist = FALSE
   MaxG = 1
   GenLen = 0
+  WithWDL = FALSE
   DEV = "none"
 INVARIANTS TypeOK OneReply CtxNotEarly
 PROPERTIES ReplyLive ListenerEnds ReadLive
